@@ -21,6 +21,14 @@ class C04Monitor(Monitor):
         self.log_rows_seen = 0
         self.reverted_count_change = False
         self.step_had_hmc = False
+        self.fresh_calculator = False
+
+    def on_user_edit(self, w, ed):
+        if ed.get("fresh_calculator"):
+            # until the new instance has evaluated the current configuration there is no result to restore: an EMPTY
+            # cache (one recomputation when somebody asks) is the only correct state; a filled one is still judged
+            self.fresh_calculator = True
+            self.nevals_at_step_end = None
 
     def _ctx(self, w, name, verdict):
         return (f"driver={w.sc['driver']}|move={w.move_cat(name)}|verdict={verdict}|"
@@ -31,7 +39,9 @@ class C04Monitor(Monitor):
         if (self.nevals_at_step_end is not None and w.calc_spec["style"] in ("caching", "ase_lj", "nlstub")
                 and not self.step_had_hmc):
             extra = w.calc.nevals - self.nevals_at_step_end
-            if extra:
+            if extra and self.fresh_calculator:
+                w.result.count("probe.fresh_calculator_first_evaluation")
+            elif extra:
                 self.violate(w, "observer_call_costs_evaluation",
                              f"driver={w.sc['driver']}|calc={w.calc_spec['style']}|logger={int(w.disk is not None)}",
                              f"{extra} extra energy evaluation(s) between two steps (observer calls)")
@@ -97,6 +107,8 @@ class C04Monitor(Monitor):
             self.violate(w, "remembered_cell_stale", c, "context.last_cell != atoms.cell")
         if w.crit_events and verdict is False and w.crit_events[0]["n"] != pre["n"]:
             self.reverted_count_change = True
+        if verdict is True:
+            self.fresh_calculator = False
         if "hmc" in kind:
             # "Hamiltonian moves apart": the integrator evaluates forces as often as it needs
             self.step_had_hmc = True
@@ -117,7 +129,9 @@ class C04Monitor(Monitor):
                                  f"after the trial the calculator would have to recompute the current energy: {changes}")
             else:
                 e = calc.results.get("energy")
-                if e is None or not _close(float(e), ref):
+                if e is None and self.fresh_calculator and not calc.results:
+                    w.result.count("probe.fresh_calculator_cache_empty")
+                elif e is None or not _close(float(e), ref):
                     self.violate(w, "cached_energy_belongs_to_other_configuration", c,
                                  f"calculator would report {e!r} from cache; from-scratch value {ref!r}")
             # (c) evaluation budget
@@ -167,6 +181,10 @@ class C04(HistoryCampaign):
 
     def generate(self, rnd, tier, index):
         sc = super().generate(rnd, tier, index)
+        if len(sc["steps"]) > 1 and rnd.random() < 0.4:
+            # the user attaches a fresh calculator between two run() calls: the reference energy is kept, the result
+            # cache of the new instance is empty until something is evaluated (seeded C04-5)
+            sc["edits"] = [{"before_segment": 1, "fresh_calculator": True}]
         if rnd.random() < 0.5:
             sc["files"] = {"logfile": {"name": "log", "as": "object", "mode": "a"}, "logging_interval": 1}
         return sc
